@@ -33,6 +33,8 @@ class Result:
 
 def run_property(mod, tier, seed, replay=None):
     t0 = time.time()
+    if "VERIF_SHARD_TIMEOUT" not in os.environ:
+        core.SHARD_TIMEOUT = 240.0 if tier == "quick" else 3600.0
     pid = mod.ID
     rng = core.Rng(seed, pid)
     res = Result()
@@ -127,6 +129,10 @@ def run_property(mod, tier, seed, replay=None):
                 pv.append((i, msg))
     if hasattr(mod, "violated_all"):
         pv += mod.violated_all(lines, model, checked, release)
+    for i, ln in enumerate(lines):
+        for prof, ans in (("checked", checked), ("wrapping", release)):
+            if ans[i] == "timeout" and (model[i].startswith("ok") or model[i] == "@impl"):
+                pv.append((i, "%s build: %s did not return within %.0f s (the model answers at once): the operation does not terminate on this input" % (prof, ln.replace("@impl ", "").split()[0], core.SHARD_TIMEOUT)))
     # expand sweep disagreements to a concrete input, then evaluate the predicate there
     extra = []
     for (i, kind) in dis[:8]:
